@@ -13,7 +13,7 @@ poll in which the `FileWriter` is constructed):
 
 | step        | code                                                                                   |
 |-------------|----------------------------------------------------------------------------------------|
-| `listed ok` | `complete_multipart_upload`, first of all: the part list is there and not empty — else `MalformedXML` (a00e4e8); nothing is changed |
+| `listed ok` | `complete_multipart_upload`, first of all: the part list is there and not empty — else `MalformedXML` (0fcb858); nothing is changed |
 | `probe p`   | `complete_multipart_upload`, validation loop: `fs::metadata(part file)` — missing → `InvalidPart`; nothing is changed |
 | `sizes ok`  | `complete_multipart_upload`: the size rule over the listed parts (`EntityTooSmall`); nothing is changed. (b29f222: after it the bucket must still exist — else `NoSuchBucket`, nothing is changed and no file is created; as for the bucket check of `put_object`, 1d0f501, the programs below are those of a request whose bucket exists) |
 | `create`    | `prepare_file_write` (156124b: no longer `async`): `tmp_file_counter.fetch_add(1)`, `std::fs::File::create(tmp)`, `FileWriter { clean_tmp: true }` constructed — no `await` in between, hence no point at which the request future can be dropped: the file never exists without the guard whose `Drop` removes it. (Before, `tokio::fs::File::create(tmp).await` ran on the blocking pool and the `FileWriter` was constructed only after the await returned — a separate step `adopt`; a future dropped in between left the file: `tmp-leftover:drop-at-create`.) |
@@ -190,7 +190,7 @@ def completePost (c : Cfg) : List Step :=
   (if c.hasMeta then Step.saveMeta c.metaFails else .dropMeta c.metaFails) :: .saveInfo c.infoFails ::
     (c.parts.map fun _ => Step.dropPart) ++ [.consume]
 
-/-- a00e4e8: the first thing `complete_multipart_upload` looks at is whether a part list is there and names a part: a missing or
+/-- 0fcb858: the first thing `complete_multipart_upload` looks at is whether a part list is there and names a part: a missing or
     empty list is refused (`MalformedXML`) with nothing changed; a list that names a part passes that check without any
     effect, so it is a step of the program only where it fails -/
 def completeProg (c : Cfg) : List Step :=
